@@ -700,7 +700,9 @@ class Parser:
                     nested_meta: dict[str, Any] = {}
                     # PR#307 Finding 1: Track duplicate keys within nested blocks
                     nested_key_positions: dict[str, list[int]] = {}
-                    if self.current().type == TokenType.INDENT:
+                    # Children sit deeper than the META fields; a line at the fields' own indentation
+                    # is the next field of META (the nested block is empty), not a child of this key.
+                    if self.current().type == TokenType.INDENT and self.current().value > indent_level:
                         nested_indent = self.current().value
                         self.advance()
                         nested_has_indented = True
